@@ -320,18 +320,23 @@ def direct_oracle(inp, obs):
 
 
 def classify(inp, obs, msg):
-    if inp["kind"] != "data" or not isinstance(msg, str):
+    """the open finding: a date-ONLY DateTime rule, a text cell ending in ' 00:00:00', accepted under Excel and rejected under
+    the other two formats - and nothing else differs"""
+    if inp["kind"] != "data" or not isinstance(msg, str) or any("failure" in r for r in obs.values()):
         return None
-    if "00:00:00" in msg and "DateTime" in msg and "as excel" in msg:
-        return "C17/excel-date-only-suffix"
-    if "different verdicts" in msg and "excel" in msg:
-        # a row whose only differing cell is such a DateTime cell
-        case = inp["case"]
-        for y, row in enumerate(case["table"]):
-            for x, v in enumerate(row):
-                if case["decls"][x]["type"] == "DateTime" and v.endswith(" 00:00:00") and obs["excel"]["cells"][y][x] != obs["delimited"]["cells"][y][x]:
-                    return "C17/excel-date-only-suffix"
-    return None
+    case = inp["case"]
+    differing = 0
+    for y, row in enumerate(case["table"]):
+        for x, v in enumerate(row):
+            d, o, e = obs["delimited"]["cells"][y][x], obs["ods"]["cells"][y][x], obs["excel"]["cells"][y][x]
+            if d == o == e:
+                continue
+            decl = case["decls"][x]
+            date_only = decl["type"] == "DateTime" and not any(t in decl["rule"] for t in ("hh", "mm", "ss"))
+            if not (date_only and v.endswith(" 00:00:00") and d == o == ["reject"] and e[0] == "ok"):
+                return None
+            differing += 1
+    return "C17/excel-date-only-suffix" if differing else None
 
 
 def gen_inputs(tier, rnd):
@@ -350,6 +355,15 @@ def gen_inputs(tier, rnd):
             if rnd.random() < 0.12:
                 k += 1
                 yield {"kind": "cid", "rows": bad, "seed": k, "what": "defect"}
+    # every rule of every type against its whole cell pool, one column (systematic), then random multi-column tables
+    for ftype, (rules, cells) in DATA_TYPES.items():
+        for rule in rules:
+            for empty in (False, True):
+                if ftype == "Constant" and empty:
+                    continue
+                k += 1
+                yield {"kind": "data", "seed": k, "case": {"decls": [{"name": "f0", "type": ftype, "rule": rule, "empty": empty, "length": ""}],
+                                                           "allowed": None, "header": 0, "table": [[c] for c in cells]}}
     m = 60 if tier == "quick" else 600
     for _ in range(m):
         k += 1
